@@ -1,4 +1,4 @@
-import XjsModel.Proofs.RsMain
+import XjsModel.Proofs.RaTerm
 import XjsModel.Props.TableObligations
 /-
   C03 — Printed code parses back to the tree it was printed from.
@@ -15,7 +15,7 @@ import XjsModel.Props.TableObligations
   expression statement does not start with `{` or `function` (finding stmt-start-object-or-function); the then-branch
   of an `if` with `else` does not end in an `if` without `else` (finding dangling-else).
 
-  Proved here (`RS.main`, `RS.stmtMain`, `RS.program_round_trip`: the Pratt invariant for expressions, its statement
+  Proved here (`RA.main`, `RA.stmtMain`, `RA.program_round_trip`: the Pratt invariant for expressions, its statement
   counterpart, and the statement loops, by structural recursion over the seven mutually inductive spec-tree types):
     the token sequence the printer emits for a tree (`toks`: operands parenthesised by the printer's four precedence
     tests; `;` after expression, `let` and `return` statements; no separator after `}`) is parsed back to exactly that
@@ -29,29 +29,31 @@ import XjsModel.Props.TableObligations
   Known findings there: stmt-start-object-or-function, dangling-else, printer-paren-function-indent, trim-in-literal.
 -/
 namespace Xjs.C03
-open Xjs Xjs.RS
+open Xjs Xjs.RA
 
 /-- PRINT → PARSE: for every such tree, parsing the printer's token sequence (followed by anything
     that cannot continue an expression, e.g. `;`, `)`, `,`, end of input) returns exactly that tree. -/
-theorem printed_tokens_parse_back (cfg : PCfg) (hc : BaseCfg cfg) (s : SE) (hw : s.wf = true)
+theorem printed_tokens_parse_back (cfg : PCfg) (hc : BaseCfg cfg) (s : SE) (hw : s.wf = true) (hterm : s.term = true)
     (st : PS) (rest : List Token) (hr : rest ≠ []) (ht : st.toks = s.toks ++ rest) (hstop : stops cfg LOWEST rest) :
     parseExpressionI cfg [] LOWEST st = some (s.tree, nextK (s.toks.length - 1) st) :=
-  print_then_parse hc s hw LOWEST st rest hr ht (fits_lowest s hw) (stops_mono hstop (rbl_ge_one s hw)) hstop
+  print_then_parse (tol := false) (sm := false) hc (fun h => by cases h) (fun h => by cases h) s hw (lay_of_term false false s hw hterm) LOWEST st rest hr ht
+    (fits_lowest s hw) (stops_mono hstop (rbl_ge_one s hw)) hstop
 
 /-- PRINT → PARSE for statements: any well-formed statement, followed by anything that is not an `else` after an open
     `if`, parses back to the statement; the cursor stops on its last token -/
-theorem printed_statement_parses_back (cfg : PCfg) (hc : BaseCfg cfg) (s : SS) (hw : s.wf = true)
+theorem printed_statement_parses_back (cfg : PCfg) (hc : BaseCfg cfg) (s : SS) (hw : s.wf = true) (hterm : s.term = true)
     (st : PS) (rest : List Token) (hr : rest ≠ []) (ht : st.toks = s.toks ++ rest)
     (hopen : s.openIf = true → (rest.headD semiT).type ≠ .else_) :
     parseStatementI cfg cfg.stmtI st = some (s.tree, nextK (s.toks.length - 1) st) :=
-  stmtMain hc s hw st rest hr ht hopen
+  stmtMain (tol := false) (sm := false) hc (fun h => by cases h) (fun h => by cases h) s hw (layS_of_term false false s hw hterm)
+    st rest hr ht (follow_of_term false false s hterm _ hopen)
 
-/-- PRINT → PARSE for whole programs, every mode: the printed tokens of any well-formed program tree parse to that
-    tree without any error -/
+/-- PRINT → PARSE for whole programs, every mode: the printed tokens of any well-formed program tree (every statement
+    terminator written, as the compact printer does) parse to that tree without any error -/
 theorem printed_program_parses_back (cfg : PCfg) (hc : BaseCfg cfg) (prog : SSList) (hw : prog.wf = true)
-    (eofTok : Token) (he : eofTok.type = .eof) :
+    (hterm : prog.term = true) (eofTok : Token) (he : eofTok.type = .eof) :
     ∃ r, parseProgram cfg (prog.toks ++ [eofTok]) = some r ∧ r.prog = prog.tree ∧ r.errors = [] ∧ r.hasErr = false :=
-  program_round_trip hc prog hw eofTok he
+  printed_program_round_trip hc prog hw hterm eofTok he
 
 /-- the modes the theorems cover: the four combinations of strict / tolerant and smart semicolons -/
 theorem all_modes_are_base (tolerant smart : Bool) : BaseCfg { tolerant := tolerant, smart := smart } :=
@@ -102,10 +104,10 @@ example : demo2.toks.map (·.type) = [.ident, .assign, .ident, .lparen, .ident, 
 /-- `function f(a) { if (a) return a; else { let x = [a]; } }  f(1);` as a programmatic tree -/
 private def prog : SSList :=
   .cons (.funcD (tk .function [102]) (tk .ident [102]) [tk .ident [97]]
-    (.cons (.ifElse (tk .if_ [105, 102]) (.atom (tk .ident [97])) (.ret (tk .return_ [114]) (.atom (tk .ident [97])))
-      (.block (.cons (.letS (tk .let_ [108]) (tk .ident [120]) (.arr (tk .lbracket [91]) (.cons (.atom (tk .ident [97])) .nil))) .nil))) .nil))
-  (.cons (.exprS (.call (tk .lparen [40]) (.atom (tk .ident [102])) (.cons (.atom (tk .int [49])) .nil))) .nil)
-example : prog.wf = true := by decide
+    (.cons (.ifElse (tk .if_ [105, 102]) (.atom (tk .ident [97])) (.ret (tk .return_ [114]) (.atom (tk .ident [97])) true) (tk .else_ [101])
+      (.block (.cons (.letS (tk .let_ [108]) (tk .ident [120]) (.arr (tk .lbracket [91]) (.cons (.atom (tk .ident [97])) .nil)) true) .nil))) .nil))
+  (.cons (.exprS (.call (tk .lparen [40]) (.atom (tk .ident [102])) (.cons (.atom (tk .int [49])) .nil)) true) .nil)
+example : prog.wf = true ∧ prog.term = true := by decide
 example : prog.toks.map (·.type) = [.function, .ident, .lparen, .ident, .rparen, .lbrace, .if_, .lparen, .ident, .rparen,
     .return_, .ident, .semicolon, .else_, .lbrace, .let_, .ident, .assign, .lbracket, .ident, .rbracket, .semicolon, .rbrace,
     .rbrace, .ident, .lparen, .int, .rparen, .semicolon] := by decide
